@@ -111,30 +111,29 @@ Fixpoint must_l (p : prog) (c : string) (done : bool) (code : list instr) : opti
 
 Definition close_shape_ok (p : prog) : bool :=
   let c := "w.fsListenerDone" in
-  (* Close: cancels, then waits for the done channel, and waits for nothing else *)
   match lookup_body p "Close" with
-  | Some b => any_l (is_ext "w.fsListenerCancel") b && any_l (is_chan ChRecv c) b &&
-              negb (any_l (fun i => is_blocking i && negb (is_chan ChRecv c i)) b) &&
-              negb (any_l (fun i => match i with ICall _ | IGo _ => true | _ => false end) b)
   | None => false
-  end &&
-  (* starting the listener: on every path, also the failing ones, the done channel is closed or a
-     goroutine that closes it on exit has been started *)
-  match lookup_body p "startFilesystemListener" with
-  | Some b => match must_l p c false b with Some true => true | _ => false end
-  | None => false
-  end &&
-  (* the listener loop can leave: its select has a returning branch fed by ctx.Done() *)
-  existsb (fun nb => let '(_, b) := nb in
-             if closer_body p c b
-             then any_l (fun i => match i with
-                                  | ILoop lb => any_l (is_ext "ctx.Done") lb && any_l (is_chan ChSelect "select") lb &&
-                                                any_l is_return lb
-                                  | _ => false end) b
-             else false) p &&
-  forallb (fun nb => let '(_, b) := nb in
-             if closer_body p c b
-             then any_l (fun i => match i with
-                                  | ILoop lb => any_l (is_ext "ctx.Done") lb && any_l is_return lb
-                                  | _ => false end) b
-             else true) p.
+  | Some b =>
+    (* a Close that waits for nothing trivially returns *)
+    negb (any_l (fun i => is_blocking i || match i with ICall _ | IGo _ => true | _ => false end) b) ||
+    ((* otherwise: it cancels the listener context, then waits for the done channel and for nothing else *)
+     any_l (is_ext "w.fsListenerCancel") b && any_l (is_chan ChRecv c) b &&
+     negb (any_l (fun i => is_blocking i && negb (is_chan ChRecv c i)) b) &&
+     negb (any_l (fun i => match i with ICall _ | IGo _ => true | _ => false end) b) &&
+     (* starting the listener: on every path, also the failing ones, the done channel is closed or a
+        goroutine that closes it on exit has been started *)
+     match lookup_body p "startFilesystemListener" with
+     | Some sb => match must_l p c false sb with Some true => true | _ => false end
+     | None => false
+     end &&
+     (* the listener loop can leave: its select has a returning branch fed by ctx.Done() *)
+     existsb (fun nb => let '(_, lb) := nb in closer_body p c lb) p &&
+     forallb (fun nb => let '(_, lb) := nb in
+                if closer_body p c lb
+                then any_l (fun i => match i with
+                                     | ILoop body => any_l (is_ext "ctx.Done") body &&
+                                                     any_l (is_chan ChSelect "select") body &&
+                                                     any_l is_return body
+                                     | _ => false end) lb
+                else true) p)
+  end.
